@@ -1,11 +1,18 @@
 import LinOp.Core.Parse
 import LinOp.C05.Model
+import LinOp.C05.ModelKron
 /-! Line-protocol driver for the C05 models (exact rationals).
   shape <path tokens joined by '/'> <batch dims joined by '.' or '-'> <absent|vec|mat:m> <logdet 0/1> <reduce 0/1>
         → `<inv_quad term> <logdet term>` with terms `none | empty | shape[d1,d2,…] | err`
   slq c V0 FTH      (V0, FTH : m rows of k entries)          → slqAssemble
   iq S R            (S, R : n × m)                             → `<columns> <reduced>`
   block x1,x2,…                                               → blockReduce
+  krondiag V            (V : one row per factor, rows may differ in length)   → kronDiag (exact)
+  kronlogdet V                                                 → kronLogdetN Float.log (clamp 1e-7) (Float)
+  kpadloconst V c1,c2,…                                        → kpadloKronConstLogdet (Float)
+  kpadlosymm SEV DS                                            → kpadloSymmLogdet (Float)
+  kronsolve n1,n2,… B1|B2|… RHS   (Bi : ni × ni inverse factors, RHS : N × C, flat row-major)
+                                                              → `<kronSolve, N × C> <kronInvQuadCols>` (exact)
 -/
 open LinOp LinOp.C05 LinOp.Parse
 
@@ -40,6 +47,39 @@ def parseRhs (s : String) : Option Rhs :=
 
 def getM (a : Array (Array Rat)) (n m : Nat) : Mat Rat n m := Mat.ofArrays n m a
 
+
+def ratToFloat (r : Rat) : Float := Float.ofInt r.num / Float.ofNat r.den
+
+def toFloats (a : Array (Array Rat)) : List (List Float) := (a.map fun r => (r.map ratToFloat).toList).toList
+
+/-- exact value of a Float as `mantissa:exponent` (value = mantissa · 2^exponent) -/
+def showFloat (x : Float) : String :=
+  if x.isNaN || x.isInf then "nan" else
+  let (m, e) := x.frExp
+  toString (m * 9007199254740992.0).toInt64.toInt ++ ":" ++ toString (e - 53)
+
+def clamp7 (x : Float) : Float := if x < 1e-7 then 1e-7 else x
+
+instance : Zero Float := ⟨0.0⟩
+instance : One Float := ⟨1.0⟩
+
+/-- flat row-major position of a multi-index -/
+def KIdx.flat : (l : List Nat) → KIdx l → Nat
+  | [], _ => 0
+  | _ :: l, (i, j) => i.1 * l.foldr (· * ·) 1 + KIdx.flat l j
+
+def mkMats : (l : List Nat) → List (Array (Array Rat)) → KMats Rat l
+  | [], _ => ()
+  | n :: l, ms => (Mat.ofArrays n n (ms.head!), mkMats l ms.tail!)
+
+def runKronSolve (l : List Nat) (bs : List (Array (Array Rat))) (rhs : Array (Array Rat)) : String :=
+  let c := (rhs[0]!).size
+  let Bs := mkMats l bs
+  let y : KIdx l → Fin c → Rat := fun idx j => (rhs[KIdx.flat l idx]!)[j.1]!
+  let all := KIdx.all l
+  let sol := all.map fun idx => (List.finRange c).map fun j => kronSolve l Bs y idx j
+  showMat sol ++ " " ++ showList showRat ((List.finRange c).map (kronInvQuadCols l Bs y))
+
 def run (line : String) : String :=
   match words line with
   | ["shape", p, b, r, lg, rd] =>
@@ -63,6 +103,30 @@ def run (line : String) : String :=
       let q := tab1 (invQuadCols (getM s n m) (getM r n m))
       showList showRat ((List.finRange m).map q) ++ " " ++ showRat (invQuadReduce q)
     | _, _ => "bad-op"
+  | ["krondiag", v] =>
+    match parseMat? v with
+    | some a => showList showRat (kronDiag (a.map Array.toList).toList)
+    | none => "bad-op"
+  | ["kronlogdet", v] =>
+    match parseMat? v with
+    | some a => showFloat (kronLogdetN Float.log clamp7 (toFloats a))
+    | none => "bad-op"
+  | ["kpadloconst", v, cs] =>
+    match parseMat? v, parseRats? cs with
+    | some a, some cs =>
+      let ev := toFloats a
+      let consts := cs.map ratToFloat
+      let diags := List.zipWith (fun e c => List.replicate e.length c) ev consts
+      showFloat (kpadloKronConstLogdet Float.log clamp7 ev diags consts)
+    | _, _ => "bad-op"
+  | ["kpadlosymm", sv, ds] =>
+    match parseMat? sv, parseMat? ds with
+    | some a, some d => showFloat (kpadloSymmLogdet Float.log (toFloats a) (toFloats d))
+    | _, _ => "bad-op"
+  | ["kronsolve", ns, bs, rhs] =>
+    match parseNats? ns, (bs.splitOn "|").mapM parseMat?, parseMat? rhs with
+    | some l, some bs, some rhs => if bs.length = l.length then runKronSolve l bs rhs else "bad-op"
+    | _, _, _ => "bad-op"
   | ["block", x] =>
     match parseRats? x with
     | some xs => let a := xs.toArray; showRat (blockReduce (fun i : Fin a.size => a[i.1]!))
